@@ -120,7 +120,7 @@ class Extraction:
         gp = os.path.join(out, 'gimli.facts.json')
         if not os.path.exists(gp):
             raise CannotDecide('driver produced no fact file for feature set ' + name)
-        self.facts[name] = Facts(gp)
+        self.facts[name] = Facts(gp, renames=False)    # a feature subset: functions are absent, not renamed
         shutil.rmtree(tgt, ignore_errors=True)
         self.times[name] = time.time() - t0
         return self.facts[name]
